@@ -83,9 +83,12 @@ type TCounted struct {
 }
 
 type TCountedP struct {
-	A []*TIn      `plenc:"1"`
+	A []*TIn `plenc:"1"`
+	C []*int `plenc:"3"`
+}
+
+type TTimes struct {
 	B []time.Time `plenc:"2"`
-	C []*int      `plenc:"3"`
 }
 
 type TNested struct {
@@ -325,4 +328,29 @@ type KxVal struct {
 type KxValPrime struct {
 	M map[string]KxPrime `plenc:"1"`
 	Z int                `plenc:"2"`
+}
+
+// ---- presence positions (C09)
+
+type TPtrsS struct {
+	A *int    `plenc:"1"`
+	B *string `plenc:"2"`
+}
+
+type TPtrNest struct {
+	P *TPtrsS `plenc:"1"`
+	Q int     `plenc:"2"`
+}
+
+type TMapPS struct {
+	M map[string]*int `plenc:"1"`
+}
+
+type TMapPT struct {
+	M map[int]*TIn `plenc:"1"`
+}
+
+type TNullNest struct {
+	N TNull  `plenc:"1"`
+	P *TNull `plenc:"2"`
 }
